@@ -383,3 +383,51 @@ func inlinedEffectSites(p *Program, fn *ssa.Function, eff Effect) (sites []ssa.I
 	}
 	return sites, funcShortName(h)
 }
+
+// strictSplitHolds: the guard has strict atoms (`x > y`, `x < y`) and the effect is unreachable under EVERY way of
+// replacing each of them by either its non-strict form or its inequality form. A path that crosses no other atom
+// must then have crossed, for some strict atom, both `x >= y` and `x != y` — which is `x > y` written as
+// `if x != y { if x < y { stale } … }`. (k strict atoms → 2^k reachability checks; k ≤ 3.)
+func strictSplitHolds(fn *ssa.Function, g guardSpec, effs []ssa.Instruction) bool {
+	vs := strictVariants(g)
+	if len(vs) == 0 {
+		return false
+	}
+	for _, v := range vs {
+		limit, _, _ := reachThreaded(fn, v)
+		for _, e := range effs {
+			if lim, ok := limit[e.Block()]; ok && indexIn(e.Block(), e) < lim {
+				return false
+			}
+		}
+	}
+	return true
+}
+
+// strictVariants: the 2^k weakenings of a guard with k ≤ 3 strict atoms (each replaced by ≥/≤ or by ≠); nil otherwise.
+func strictVariants(g guardSpec) []guardSpec {
+	var strict []int
+	for i, a := range g.atoms {
+		if a.Op == ">" || a.Op == "<" {
+			strict = append(strict, i)
+		}
+	}
+	if len(strict) == 0 || len(strict) > 3 {
+		return nil
+	}
+	var out []guardSpec
+	for mask := 0; mask < 1<<len(strict); mask++ {
+		v := guardSpec{src: g.src, afters: g.afters, atoms: append([]AtomSpec{}, g.atoms...)}
+		for bit, i := range strict {
+			a := v.atoms[i]
+			if mask&(1<<bit) == 0 {
+				a.Op += "=" // > → >=, < → <=
+			} else {
+				a.Op = "!="
+			}
+			v.atoms[i] = a
+		}
+		out = append(out, v)
+	}
+	return out
+}
